@@ -208,6 +208,22 @@ pub fn systematic_code(ncw: usize, r: usize, salt: u64) -> Vec<Vec<usize>> {
     }).collect()
 }
 
+/// A code whose parity part is invertible but NOT triangular (the tail columns of `systematic_code` rotated and two rows exchanged):
+/// the dense encoder's elimination has to exchange rows to build its generator.
+pub fn pivoting_code(ncw: usize, r: usize, salt: u64) -> Vec<Vec<usize>> {
+    let k = ncw - r;
+    let mut rows = systematic_code(ncw, r, salt);
+    if r >= 2 {
+        let shift = 1 + (salt as usize) % (r - 1);
+        for row in rows.iter_mut() {
+            for v in row.iter_mut() { if *v >= k { *v = k + (*v - k + shift) % r; } }
+            row.sort_unstable();
+        }
+        rows.swap(0, r - 1);
+    }
+    rows
+}
+
 pub fn set_affinity(ncpu: usize) -> bool {
     // restrict this thread (and the threads it spawns afterwards) to the first `ncpu` CPUs: num_cpus::get() follows it
     unsafe {
